@@ -28,6 +28,10 @@ pub enum NetCmd {
     SetConnect(Vec<(usize, usize)>),
     /// (script only) `Network::set_activation(layer, activation)`
     SetActivation(usize, Act),
+    /// (script only) reconfiguration between calls
+    SetOptimizer(Opt),
+    SetObjective(Obj, Option<(f32, f32)>),
+    SetAccumulation(Acc, Acc),
 }
 
 #[derive(Clone, Debug)]
@@ -570,6 +574,27 @@ pub fn enc_cmd(t: &mut Tok, cmd: &NetCmd) {
             push_n(t, *i);
             t.push(a.code());
         }
+        NetCmd::SetOptimizer(o) => {
+            t.push(16);
+            o.enc(t);
+        }
+        NetCmd::SetObjective(ob, cl) => {
+            t.push(17);
+            t.push(ob.code());
+            match cl {
+                Some((lo, hi)) => {
+                    t.push(1);
+                    push_f(t, *lo);
+                    push_f(t, *hi)
+                }
+                None => t.push(0),
+            }
+        }
+        NetCmd::SetAccumulation(sa, la) => {
+            t.push(18);
+            t.push(sa.code());
+            t.push(la.code());
+        }
         NetCmd::LayerBackward(i, x, g) => {
             t.push(9);
             push_n(t, *i);
@@ -690,6 +715,9 @@ pub fn run_net_cmd(t: &mut Tok, n: &mut network::Network, cmd: &NetCmd) {
         NetCmd::SetActivation(i, a) => {
             n.set_activation(*i, a.to());
         }
+        NetCmd::SetOptimizer(o) => n.set_optimizer(o.to()),
+        NetCmd::SetObjective(ob, cl) => n.set_objective(ob.to(), *cl),
+        NetCmd::SetAccumulation(sa, la) => n.set_accumulation(sa.to(), la.to()),
         NetCmd::LayerBackward(i, x, g) => {
             let (ig, wg, bg) = match &n.layers[*i] {
                 network::Layer::Dense(l) => {
